@@ -43,7 +43,10 @@ RULE = ('calls are drawn from templates that make leakage visible: dotted string
         'accumulators fed through yielding callables, Fill/Match modes around a yield, Coalesce over a '
         'failing branch, calls that end in PathAccessError / a raising callable (full trace text compared), '
         'and callables that call glom() themselves (depth <= 3, inner failures caught by an outer '
-        'Coalesce). Yield points are callables inside the specs that hand control to a scheduler thread; for '
+        'Coalesce); plus ONE spec object shared by all the calls (as module-level specs are) with yield '
+        'points inside a list/dict argument being filled, inside an Assign missing= factory and inside '
+        'the __repr__ of a Match key, run under enumerated schedules, free-running, and re-entrantly '
+        '(the call re-enters glom with the same spec object at its j-th yield point). Yield points are callables inside the specs that hand control to a scheduler thread; for '
         '2-3 calls with <= 4 yield points each ALL interleavings of their segments are enumerated (a sample '
         'of call combinations in the quick tier, all in thorough), plus free-running repetitions under '
         'sys.setswitchinterval(1e-6). Each call is first run alone (its shared-state accesses are logged '
@@ -134,19 +137,31 @@ class Sched:
     def __init__(self, n):
         self.go = [threading.Semaphore(0) for _ in range(n)]
         self.arrived = [threading.Semaphore(0) for _ in range(n)]
+        self.finished = [False] * n
+        self.free = False           # after the schedule: every call runs on freely
         self.deadlock = False
 
     def yield_point(self, tid):
+        if self.free:
+            return
         self.arrived[tid].release()
         if not self.go[tid].acquire(timeout=TIMEOUT):
             self.deadlock = True
 
     def drive(self, schedule):
+        """a call that passes fewer yield points than when run alone (interference!) simply ends
+        early; one that passes more runs on freely after the schedule"""
         for tid in schedule:
+            if self.finished[tid]:
+                continue
             self.go[tid].release()
             if not self.arrived[tid].acquire(timeout=TIMEOUT):
                 self.deadlock = True
-                return
+                break
+        self.free = True
+        for g in self.go:
+            for _ in range(64):
+                g.release()
 
 
 class Ctx:
@@ -164,7 +179,65 @@ class Ctx:
             self.sched.yield_point(self.tid)
 
 
+_TL = threading.local()
+
+
+class DynCtx:
+    """context of a spec object SHARED by several calls: every yield point is handed to the Ctx of
+    the calling thread; a yield point can also be the place where the running call re-enters glom
+    with the same spec object (`_TL.nest`)"""
+    stubs = None
+    logs = None
+
+    def yield_point(self, idx):
+        nest = getattr(_TL, 'nest', None)
+        if nest is not None:
+            nest['count'] += 1
+            if nest['count'] - 1 == nest['at']:
+                import glom
+                _TL.nest = None                      # the inner call does not nest again
+                try:
+                    nest['out'] = outcome_of(lambda: glom.glom(dec(nest['target']), nest['spec']))[0]
+                finally:
+                    _TL.nest = nest
+        c = getattr(_TL, 'ctx', None)
+        if c is not None:
+            c.yield_point(idx)
+
+
+class Fac:
+    """a `missing=` factory that is a yield point"""
+
+    def __init__(self, ctx, idx):
+        self.ctx, self.idx = ctx, idx
+
+    def __call__(self):
+        self.ctx.yield_point(self.idx)
+        return {}
+
+    def __repr__(self):
+        return 'Fac%d' % self.idx
+
+
+class KeyR:
+    """a Match key whose __repr__ is a yield point"""
+
+    def __init__(self, ctx, idx, name):
+        self.ctx, self.idx, self.name = ctx, idx, name
+
+    def __hash__(self):
+        return hash(self.name)
+
+    def __eq__(self, other):
+        return isinstance(other, KeyR) and other.name == self.name
+
+    def __repr__(self):
+        self.ctx.yield_point(self.idx)
+        return 'Key(%r)' % self.name
+
+
 FNS = {
+    'fid': lambda t: 'f-' + t['id'],
     'id': lambda x: x,
     'inc': lambda x: x + 1,
     'neg': lambda x: -x,
@@ -305,6 +378,8 @@ def build(sj, ctx):
         return S(**{sj[1]: build(sj[2], ctx)})
     if k == 'sget':
         return S[sj[1]]
+    if k == 'ssetlist':                      # S(x=[...]): a list argument of a scope assignment
+        return S(x=[build(x, ctx) for x in sj[1]])
     if k == 'aset':
         return getattr(A, sj[1])
     if k == 'fill':
@@ -319,6 +394,16 @@ def build(sj, ctx):
         return Val(dec(sj[1]))
     if k == 'raw':
         return sj[1]
+    if k == 'spec':
+        return glom.Spec(build(sj[1], ctx))
+    if k == 'callargs':                      # a LIST used as an argument (filled by arg_val)
+        return glom.Call(tuple, args=([build(x, ctx) for x in sj[1]],))
+    if k == 'callkw':                        # a DICT used as an argument
+        return glom.Call(dict, args=({key: build(v, ctx) for key, v in sj[1]},))
+    if k == 'assign':
+        return glom.Assign(sj[1], build(sj[2], ctx), missing=Fac(ctx, sj[3]))
+    if k == 'matchkey':
+        return Match({KeyR(ctx, sj[1], 'token'): str, 'id': int})
     if k == 'T':
         t = T
         for kind, key in sj[1]:
@@ -475,8 +560,115 @@ def _walk_remember(x):
             _walk_remember(v)
 
 
+def shared_alone(spec, target_json, tid):
+    import glom
+    log = []
+    ctx = Ctx(tid, log=log)
+    _TL.ctx = ctx
+    _TL.nest = None
+    target = dec(target_json)
+    _walk_remember(target)
+    clear_caches()
+    try:
+        with Logged(ctx):
+            out, _ = outcome_of(lambda: glom.glom(target, spec))
+    finally:
+        _TL.ctx = None
+    return log, out
+
+
+def run_shared(case):
+    """several calls evaluate ONE spec object (as module-level specs are used): concurrently under a
+    schedule, free-running, or re-entrantly from one of its own yield points"""
+    import glom
+    out = dict(case)
+    spec = build(case['spec'], DynCtx())
+    targets = case['targets']
+    n = len(targets)
+    payload = []
+    for tid, tj in enumerate(targets):
+        log, o = shared_alone(spec, tj, tid)
+        payload.append({'events': log, 'alone': o})
+    clear_caches()
+    deadlock = False
+    if 'nest_at' in case:
+        _TL.ctx = Ctx(0)
+        nest = {'at': case['nest_at'], 'count': 0, 'target': targets[1], 'spec': spec, 'out': None}
+        _TL.nest = nest
+        try:
+            o_outer = outcome_of(lambda: glom.glom(dec(targets[0]), spec))[0]
+        finally:
+            _TL.nest = None
+            _TL.ctx = None
+        inner = nest['out'] if nest['out'] is not None else payload[1]['alone']   # not reached: nothing to compare
+        results = [o_outer, inner]
+    elif case.get('schedule') is not None:
+        sched = Sched(n)
+        results = [None] * n
+
+        def body(tid):
+            _TL.ctx = Ctx(tid, sched=sched)
+            _TL.nest = None
+            target = dec(targets[tid])
+            sched.yield_point(tid)
+            results[tid] = outcome_of(lambda: glom.glom(target, spec))[0]
+            sched.finished[tid] = True
+            sched.arrived[tid].release()
+        ths = [threading.Thread(target=body, args=(i,), daemon=True) for i in range(n)]
+        for t in ths:
+            t.start()
+        for i in range(n):
+            if not sched.arrived[i].acquire(timeout=TIMEOUT):
+                sched.deadlock = True
+        sched.drive(case['schedule'])
+        for t in ths:
+            t.join(timeout=TIMEOUT)
+            if t.is_alive():
+                sched.deadlock = True
+        deadlock = sched.deadlock
+    else:
+        reps = case.get('reps', 20)
+        old = sys.getswitchinterval()
+        barrier = threading.Barrier(n)
+        alone = [t['alone'] for t in payload]
+        results = [None] * n
+
+        def body(tid):
+            _TL.ctx = None
+            _TL.nest = None
+            try:
+                barrier.wait(timeout=TIMEOUT)
+            except threading.BrokenBarrierError:
+                pass
+            res = alone[tid]
+            for _ in range(reps):
+                o = outcome_of(lambda: glom.glom(dec(targets[tid]), spec))[0]
+                if o != alone[tid]:
+                    res = o
+                    break
+            results[tid] = res
+        try:
+            sys.setswitchinterval(1e-6)
+            ths = [threading.Thread(target=body, args=(i,), daemon=True) for i in range(n)]
+            for t in ths:
+                t.start()
+            for t in ths:
+                t.join(timeout=4 * TIMEOUT)
+                if t.is_alive():
+                    deadlock = True
+        finally:
+            sys.setswitchinterval(old)
+    pc, tc = snapshot_caches()
+    out['threads'] = payload
+    out['impl'] = {'outs': [r if r is not None else {'err': ['NoResult', 'the call did not finish']} for r in results],
+                   'pcache': pc, 'tcache': tc, 'deadlock': deadlock}
+    return out
+
+
 def run_impl(case):
     import glom
+    if case['mode'] == 'shared':
+        return run_shared(case)
     calls = case['calls']
     n = len(calls)
     out = dict(case)
@@ -505,6 +697,7 @@ def run_impl(case):
             spec = build(calls[tid]['spec'], ctx)
             sched.yield_point(tid)                      # wait for the first segment
             results[tid] = outcome_of(lambda: glom.glom(target, spec))[0]
+            sched.finished[tid] = True
             sched.arrived[tid].release()
         ths = [threading.Thread(target=body, args=(i,), daemon=True) for i in range(n)]
         for t in ths:
@@ -684,6 +877,70 @@ def nested_templates(u):
     return out
 
 
+def shared_templates():
+    """(name, spec, targets): ONE spec object evaluated by all the calls"""
+    TA, TB, TC = D(id='A', name='alpha'), D(id='B', name='beta'), D(id='C', name='gamma')
+    tid_ = ['T', [['[', 'id']]]
+    tname = ['T', [['[', 'name']]]
+    out = []
+    # a list / a dict used as an argument, with user code in the middle of it
+    out.append(('sh_args', ['callargs', [tid_, ['spec', ['y', 0, 'fid']], tname]], [TA, TB, TC]))
+    out.append(('sh_args2', ['tuple', [['callargs', [['spec', ['y', 0, 'fid']], tid_, ['spec', ['y', 1, 'fid']]]], ['y', 2]]], [TA, TB]))
+    out.append(('sh_kw', ['callkw', [['i', tid_], ['f', ['spec', ['y', 0, 'fid']]], ['n', tname]]], [TA, TB, TC]))
+    out.append(('sh_sset', ['tuple', [['sset', 'x', ['raw', None]], ['ssetlist', [tid_, ['spec', ['y', 0, 'fid']]]], ['sget', 'x']]], [TA, TB]))
+    # Assign(..., missing=factory): the factory is user code
+    out.append(('sh_assign', ['assign', 'meta.info.owner', ['T', [['[', 'user']]], 0],
+                [D(user='alice'), D(user='bob'), D(user='carol')]))
+    out.append(('sh_assign1', ['assign', 'meta.owner', ['T', [['[', 'user']]], 0], [D(user='alice'), D(user='bob')]))
+    # user code in __repr__: error messages and traces render shared spec objects
+    out.append(('sh_match', ['matchkey', 0], [D(id=1), D(id=2)]))
+    out.append(('sh_match3', ['tuple', [['y', 1], ['matchkey', 0]]], [D(id=1), D(id=2), D(id=3)]))
+    return out
+
+
+def shared_yields(spec_json, target_json):
+    spec = build(spec_json, DynCtx())
+    return count_user_events(shared_alone(spec, target_json, 0)[0])
+
+
+def gen_shared(rng, tier):
+    quick = tier == 'quick'
+    for name, spec, targets in shared_templates():
+        ys = [shared_yields(spec, t) for t in targets]
+        # two calls: all interleavings (sampled when there are many)
+        scheds = list(interleavings([ys[0] + 1, ys[1] + 1])) if (ys[0] + ys[1]) <= 12 else None
+        if scheds is None:
+            scheds = [rand_interleaving(rng, [ys[0] + 1, ys[1] + 1]) for _ in range(600)]
+        cap = 40 if quick else 700
+        if len(scheds) > cap:
+            scheds = rng.sample(scheds, cap)
+        for sc in scheds:
+            yield {'mode': 'shared', 'names': [name], 'spec': spec, 'targets': targets[:2], 'schedule': sc}
+        # three calls
+        if len(targets) >= 3 and sum(ys[:3]) <= (4 if quick else 7):
+            scheds = list(interleavings([y + 1 for y in ys[:3]]))
+            cap = 30 if quick else 600
+            if len(scheds) > cap:
+                scheds = rng.sample(scheds, cap)
+            for sc in scheds:
+                yield {'mode': 'shared', 'names': [name], 'spec': spec, 'targets': targets[:3], 'schedule': sc}
+        # re-entrant: the call re-enters glom with the same spec object at its j-th yield point
+        # (not from inside a __repr__ that is being rendered: reprlib's recursion guard answers '...'
+        # for an object whose repr is already running in the same thread, by design)
+        nest_js = [] if name == 'sh_match' else [0] if name == 'sh_match3' else range(ys[0])
+        for j in nest_js:
+            yield {'mode': 'shared', 'names': [name], 'spec': spec, 'targets': [targets[0], targets[1]], 'nest_at': j}
+        # free-running
+        for _ in range(1 if quick else 4):
+            yield {'mode': 'shared', 'names': [name], 'spec': spec, 'targets': targets, 'reps': 15 if quick else 60}
+
+
+def rand_interleaving(rng, segs):
+    seq = [i for i, k in enumerate(segs) for _ in range(k)]
+    rng.shuffle(seq)
+    return seq
+
+
 def interleavings(segs):
     """all sequences over thread ids with segs[i] occurrences of i"""
     counts = list(segs)
@@ -757,6 +1014,8 @@ def generate(rng, tier, scale, **focus):
         k = rng.choice([2, 3, 4])
         cs = [templates(fresh() if rng.random() < 0.5 else 1)[rng.randrange(len(names))] for _ in range(k)]
         yield {'mode': 'free', 'calls': [c[1] for c in cs], 'names': [c[0] for c in cs], 'reps': 15 if quick else 60}
+    # --- ONE spec object shared by the calls
+    yield from gen_shared(rng, tier)
     # --- nestings
     for rep in range(1 if quick else 5):
         for name, call in nested_templates(fresh()):
@@ -811,7 +1070,7 @@ def corpus():
 
 
 def key(case):
-    return {k: case.get(k) for k in ('mode', 'calls', 'schedule', 'reps')}
+    return {k: case.get(k) for k in ('mode', 'calls', 'spec', 'targets', 'nest_at', 'schedule', 'reps')}
 
 
 def interleaved(schedule):
@@ -831,6 +1090,8 @@ def interleaved(schedule):
 def nontrivial(case, verdict):
     if case['mode'] in ('nested', 'free'):
         return True
+    if case['mode'] == 'shared':
+        return 'nest_at' in case or case.get('schedule') is None or interleaved(case['schedule'])
     if len(case['calls']) >= 2 and interleaved(case.get('schedule')):
         return True
     return False
@@ -842,6 +1103,15 @@ def focus(disagreements, facts_changed):
 
 def shrink(case):
     base = {k: v for k, v in case.items() if not k.startswith('impl') and k != 'threads'}
+    if case['mode'] == 'shared':
+        n = len(case['targets'])
+        if n > 2 and case.get('schedule') is not None:
+            for i in range(n):
+                c = dict(base)
+                c['targets'] = case['targets'][:i] + case['targets'][i + 1:]
+                c['schedule'] = [t - (1 if t > i else 0) for t in case['schedule'] if t != i]
+                yield c
+        return
     n = len(case['calls'])
     if n > 1:
         for i in range(n):
